@@ -395,6 +395,10 @@ pub fn run_c05(tier: Tier) -> ! {
                 acts.push(w4::Act::LongPause);
                 if n >= 1 {
                     acts.push(w4::Act::UserWrite(0, 3));
+                    acts.push(w4::Act::ResetAddr(0));
+                }
+                if n >= 2 {
+                    acts.push(w4::Act::ResetAddr(1));
                 }
                 let mut cfg = w4::W4Cfg { rig: crate::dprig::RigCfg::basic(periphs), slave_dev: vec![0; n], gc_every_visit: n == 2, high_prio: false, acts, mon: w4::Mon::C05, dev_budget: if n >= 3 { 3 } else { 255 }, late_add: false };
                 cfg.rig.operate = operate;
@@ -513,9 +517,12 @@ pub enum DpAns {
     StatusRr,
     /// a data response 244 bytes long
     Long,
+    /// API calls instead of an answer: the user takes the FDL station offline right after the request went
+    /// out and online again three slot times later (the DP master keeps its outstanding request)
+    FdlRestart,
 }
 
-pub const DP_ANSWERS: [DpAns; 12] = [DpAns::Slave, DpAns::Silence, DpAns::Sc, DpAns::RequestEcho, DpAns::ForeignSource, DpAns::ForeignDest, DpAns::Token, DpAns::Garbage, DpAns::Truncated, DpAns::DiagExtLen0, DpAns::StatusRr, DpAns::Long];
+pub const DP_ANSWERS: [DpAns; 13] = [DpAns::Slave, DpAns::Silence, DpAns::Sc, DpAns::RequestEcho, DpAns::ForeignSource, DpAns::ForeignDest, DpAns::Token, DpAns::Garbage, DpAns::Truncated, DpAns::DiagExtLen0, DpAns::StatusRr, DpAns::Long, DpAns::FdlRestart];
 
 /// Run one answer sequence (index k of `answers` applies to the k-th acknowledged request of the station;
 /// beyond the list: default). Returns Err(panic) or Ok(number of requests seen).
@@ -554,6 +561,7 @@ pub fn dp_under_fdl_images(n_periph: usize, answers: &[u8], with_member: bool, m
     let horizon = slot_us * 4000;
     let mut last_ans: Option<(DpAns, usize)> = None;
     let mut image_violation: Option<String> = None;
+    let mut back_online_at: Option<i64> = None;
     while now < horizon && requests < max_requests {
         env_queue.sort_by_key(|e| e.0);
         while let Some((t, _)) = env_queue.first() {
@@ -566,6 +574,12 @@ pub fn dp_under_fdl_images(n_periph: usize, answers: &[u8], with_member: bool, m
         }
         now += p;
         let t = Instant::from_micros(now);
+        if back_online_at.map(|b| now >= b).unwrap_or(false) {
+            back_online_at = None;
+            if let Err(pn) = catch(|| fdl.set_online()) {
+                return Err(pn);
+            }
+        }
         let before: Vec<Vec<u8>> = _handles.iter().map(|h| dp.get_mut(*h).pi_i().to_vec()).collect();
         let r = catch(|| {
             let mut port = bus.port(0);
@@ -629,6 +643,13 @@ pub fn dp_under_fdl_images(n_periph: usize, answers: &[u8], with_member: bool, m
                 DpAns::DiagExtLen0 => Some(d(2, da, 0x08, Some(62), Some(60), vec![0x08, 0x04, 0, 2, 0x13, 0x37, 0x40])),
                 DpAns::StatusRr => Some(d(2, da, 0x02, None, None, vec![])),
                 DpAns::Long => Some(d(2, da, 0x08, None, None, vec![0x5A; 244])),
+                DpAns::FdlRestart => {
+                    if let Err(pn) = catch(|| fdl.set_offline()) {
+                        return Err(pn);
+                    }
+                    back_online_at = Some(now + 3 * slot_us);
+                    None
+                }
             };
             if let Some(b) = bytes {
                 env_queue.push((t11, b));
